@@ -1,5 +1,8 @@
 """C01f: differential test of the sub-grammar `Nest2Doc` of Props/C01f.lean against the real converter.
 
+`run(driver, rng, n)` is the entry point of the correspondence framework: `n` documents of the generator `G2`, each
+printed under 4 spellings (`corr.nest.check_docs`: `convert(print d sp) = spec d`).
+
 python corr/nest2.py <n documents> <seed>      (4 spellings per document)
   the block structure of mode C of corr/nest.py (flat blocks, quotes and lists nested in each other to depth 5) with
   the inline content of `deep2Run` (Spec/DocFlat2.lean): words, escapes, code spans without `<`, emphasis / strong to
@@ -56,6 +59,19 @@ def count_nested(d):
     return n
 
 
+def run(driver, rng, n, spellings=N.SPELLINGS, full=False):
+    """`n` documents of `G2` (all drawn from `rng`), `spellings` spellings each; `distinct` = distinct printed sources.
+    dist: the statistics of `corr.nest.check_docs` + the number of generated documents / blocks with emphasis inside
+    emphasis (the part of the grammar that `corr.nest` does not reach)."""
+    g = G2(rng)
+    docs = [g.doc() for _ in range(n)]
+    res = N.check_docs(driver, rng, docs, spellings, ['C2'] * n, full)
+    nested = [count_nested(d) for d in docs]
+    res['dist']['generated:with_nested_emphasis'] = sum(1 for k in nested if k)
+    res['dist']['generated:blocks_with_nested_emphasis'] = sum(nested)
+    return res
+
+
 if __name__ == '__main__' and sys.argv[1] == 'lean':
     n, seed = int(sys.argv[2]), int(sys.argv[3])
     g = G2(random.Random(seed))
@@ -70,13 +86,10 @@ if __name__ == '__main__':
     import json
     n = int(sys.argv[1]) if len(sys.argv) > 1 else 2000
     seed = int(sys.argv[2]) if len(sys.argv) > 2 else 1
-    rng = random.Random(seed)
-    g = G2(rng)
-    N.G = lambda r, mode: g          # `run` of corr/nest.py builds its generator through this name
     d = Driver()
-    res = N.run(d, rng, n, 'C')
+    res = run(d, random.Random(seed), n, full=True)
     d.close()
-    print(json.dumps({k: v for k, v in res.items() if k not in ('dis', 'rejected')}, indent=1))
+    print(json.dumps({k: v for k, v in res.items() if k not in ('dis', 'rejected', 'disagreements', 'samples')}, indent=1))
     for x in res['rejected'][:3]: print('REJECTED', x)
     for x in res['dis'][:int(os.environ.get('SHOW', '6'))]:
         print('SRC ', repr(x['src'])); print('WANT', repr(x['want'])); print('GOT ', repr(x['got'])); print('DOC ', x['doc']); print()
